@@ -376,17 +376,17 @@ theorem relabel_length (arrs : List Arr) (ints : Option Nat) (ni lid : Nat) :
   · rfl
 
 theorem pick_cases (reuse : Bool) (s : State) :
-    (∃ p rest, s.pool = p :: rest ∧ pick reuse s = (p, getF s.heap p, rest, s.heap)) ∨
+    (∃ p rest, reuse = true ∧ s.pool = p :: rest ∧ pick reuse s = (p, getF s.heap p, rest, s.heap)) ∨
     (pick reuse s = (s.heap.length, ({} : Frame), s.pool, s.heap ++ [({} : Frame)])) := by
   cases reuse with
   | false => right; simp [pick]
   | true =>
     cases hp : s.pool with
     | nil => right; simp [pick, hp]
-    | cons p rest => left; exact ⟨p, rest, rfl, by simp [pick, hp]⟩
+    | cons p rest => left; exact ⟨p, rest, rfl, rfl, by simp [pick, hp]⟩
 
 theorem alloc_spec (reuse : Bool) (s : State) (o nb ni : Nat)
-    (hpl : ∀ p ∈ s.pool, p < s.heap.length) :
+    (hpl : reuse = true → ∀ p ∈ s.pool, p < s.heap.length) :
     AllocSpec s o (alloc reuse s o nb ni).1 (alloc reuse s o nb ni).2 := by
   have hri : ∀ fr : Frame, (resizeInts s.arrs fr ni).1 = fr.ints ∧ (resizeInts s.arrs fr ni).2.length = s.arrs.length ∨
       (resizeInts s.arrs fr ni).1 = some s.arrs.length ∧ (resizeInts s.arrs fr ni).2.length = s.arrs.length + 1 := by
@@ -394,10 +394,10 @@ theorem alloc_spec (reuse : Bool) (s : State) (o nb ni : Nat)
     · left; simp
     · right; simp
   unfold alloc
-  rcases pick_cases reuse s with ⟨p, rest, hpool, hpk⟩ | hpk
+  rcases pick_cases reuse s with ⟨p, rest, hre, hpool, hpk⟩ | hpk
   · -- taken from the pool
     rw [hpk]
-    have hp : p < s.heap.length := hpl p (by rw [hpool]; simp)
+    have hp : p < s.heap.length := hpl hre p (by rw [hpool]; simp)
     refine ⟨rfl, rfl, rfl, Or.inl ⟨by simpa using hpool, by simp⟩, ?_, ?_, ?_, ?_, ?_, ?_⟩
     · intro x hx; simp at hx; simp [getF_set_ne _ hx]
     · simp [getF_set_eq _ hp]
@@ -575,7 +575,7 @@ theorem alloc_new_facts {s s1 : State} {o e : Nat} (hi : Inv s) (hs : AllocSpec 
 
 theorem inv_call {reuse : Bool} {s : State} {c nb ni : Nat} (hi : Inv s) (hc : c ∈ s.clos) :
     Inv { (alloc reuse s c nb ni).1 with stack := [(alloc reuse s c nb ni).2] :: (alloc reuse s c nb ni).1.stack } := by
-  have hs := alloc_spec reuse s c nb ni hi.pool_lt
+  have hs := alloc_spec reuse s c nb ni (fun _ => hi.pool_lt)
   obtain ⟨hu, hnotin, hnd⟩ := alloc_new_facts hi hs
   have hce : c ≠ (alloc reuse s c nb ni).2 := by
     intro h; have := hi.clos_used c hc; rw [h, hu] at this; cases this
@@ -592,7 +592,7 @@ theorem inv_call {reuse : Bool} {s : State} {c nb ni : Nat} (hi : Inv s) (hc : c
 theorem inv_block {reuse : Bool} {s : State} {c nb ni : Nat} {fs : List Nat} {rest : List (List Nat)}
     (hi : Inv s) (hst : s.stack = (c :: fs) :: rest) :
     Inv { (alloc reuse s c nb ni).1 with stack := ((alloc reuse s c nb ni).2 :: c :: fs) :: rest } := by
-  have hs := alloc_spec reuse s c nb ni hi.pool_lt
+  have hs := alloc_spec reuse s c nb ni (fun _ => hi.pool_lt)
   obtain ⟨hu, hnotin, hnd⟩ := alloc_new_facts hi hs
   have hc_lt : c < s.heap.length := hi.stack_lt c (by rw [hst]; simp)
   apply inv_alloc_core hi hs hc_lt
